@@ -854,10 +854,26 @@ RUNNERS = {'digit': case_digit, 'lookup': case_lookup, 'match': case_match, 'nbl
            'selfhit': case_selfhit, 'ext': case_ext, 'real': case_real}
 
 
+def guarded(ctx, kind, case):
+    """An exception escaping from navis on a well-formed input is a property failure, not a harness crash."""
+    from harness import common as C
+    case = dict(case, kind=kind)   # what a replay file stores
+    try:
+        RUNNERS[kind](ctx, case)
+    except C.Timeout:
+        raise
+    except RuntimeError as e:
+        if 'driver' in str(e):
+            raise
+        ctx.oracle(False, f'{kind}: navis raised {type(e).__name__}: {str(e)[:200]}', case)
+    except Exception as e:   # noqa
+        ctx.oracle(False, f'{kind}: navis raised {type(e).__name__}: {str(e)[:200]}', case)
+
+
 def run_case(ctx, kind, case):
     c = enc(dict(case, kind=kind))
     ctx.case(c, nontrivial=True)
-    RUNNERS[kind](ctx, case)
+    guarded(ctx, kind, case)
 
 
 def gen_cases(ctx):
@@ -909,7 +925,7 @@ def replay(ctx, rp):
     case = dec(rp['case'])
     kind = case.pop('kind')
     ctx.case(enc(dict(case, kind=kind)))
-    RUNNERS[kind](ctx, case)
+    guarded(ctx, kind, case)
 
 
 # ---------------------------------------------------------------------------------------------
